@@ -256,6 +256,8 @@ class Effects:
             return body.local_ty(base[1]).adt
         if base[0] == 'ok':
             inner = deep_strip(base[1])
+            while inner[0] == 'ok' or (inner[0] == 'call' and canon(inner[1]).endswith("Try::branch")):
+                inner = deep_strip(inner[1] if inner[0] == 'ok' else inner[2][0])
             if inner[0] == 'call':
                 return self._ret_adt(inner)
             return None
